@@ -287,7 +287,7 @@ PROPS["C11"] = _life(
     lambda f: f["pages"] >= 6 and f["we"] >= 1,
     ["battery_comparisons", "reports_compared", "C11_reopens", "C11_clears"],
     ["Traph.__init__", "Traph.close", "Traph.clear", "FileStorage.check_for_corruption", "LRUTrieHeader.read"],
-    dict(cases=96, nops=(15, 30), audit_every=(3, 5), time_cap=150, watchdog=1200, min_cases=12, n_reopens=(1, 2, 4), big=2300),
+    dict(cases=320, nops=(15, 30), audit_every=(3, 5), time_cap=150, watchdog=1200, min_cases=40, n_reopens=(1, 2, 4), big=2300),
     dict(cases=1200, nops=(12, 20, 25, 40, 80), audit_every=(1, 3, 5), time_cap=900, watchdog=3000, min_cases=200, n_reopens=(2, 4, 10, 16), every_position=True, big=5200),
 )
 
@@ -302,7 +302,7 @@ PROPS["C15"] = _life(
     lambda f: f["pages"] >= 6,
     ["battery_comparisons", "reports_compared", "C15_store_comparisons", "C15_mmap_blocks_compared"],
     ["MemoryStorage.read", "MemoryStorage.write", "FileStorage.read", "MemMapStorage.read", "FileStorage.map"],
-    dict(cases=96, nops=(15, 30), audit_every=(3, 5), time_cap=150, watchdog=1200, min_cases=12, big=4300),
+    dict(cases=240, nops=(15, 30), audit_every=(3, 5), time_cap=150, watchdog=1200, min_cases=30, big=4300),
     dict(cases=1200, nops=(20, 40, 80), audit_every=(1, 3, 5), time_cap=900, watchdog=3000, min_cases=200, big=9000),
 )
 
